@@ -4,7 +4,8 @@ Generator: 1-2 chained Repeat stages (explicit blocks or the implicit Event(...,
 entry through ExtEvent or through an Input's on_output, arrivals on a half-unit grid placed
 before / exactly at / after repetition instants, stop instant.
 Oracle: non-deterministic reference model (a tie between an arrival and a repetition
-instant is a legal schedule in both orders) -> set of admissible logs.
+instant is a legal schedule in both orders), explored depth-first and pruned with the
+observed log.
 """
 from hypothesis import strategies as st
 
@@ -84,47 +85,10 @@ def strategy(tier):
 
 
 # ---------------------------------------------------------------- reference model
-def stage_outcomes(arrivals, interval, count, stop):
-    """arrivals: [(t, data)] in arrival order (only matching events).
-    -> list of (outputs, last_repeat); outputs = [(t, data, repeat)]"""
-    results = []
-
-    def rec(i, acc, last_repeat):
-        if i == len(arrivals):
-            results.append((acc, last_repeat))
-            return
-        t, data = arrivals[i]
-        nxt = arrivals[i + 1][0] if i + 1 < len(arrivals) else INF
-        base = acc + [(t, data, 0)]
-        # deterministic part
-        k = 1
-        outs = []
-        while count is None or k <= count:
-            when = t + k * interval
-            if when < nxt and when < stop:
-                outs.append((when, data, k))
-                k += 1
-                continue
-            if when > nxt or when > stop:
-                break
-            # tie with the next arrival or with the stop: both schedules are legal
-            rec(i + 1, base + outs + [(when, data, k)], k)      # repetition first
-            break
-        rec(i + 1, base + outs, outs[-1][2] if outs else 0)
-
-    rec(0, [], 0)
-    # deduplicate
-    uniq = []
-    for r in results:
-        if r not in uniq:
-            uniq.append(r)
-    return uniq
-
-
-def model(case, names):
-    """-> list of (expected log, finals); log = [(t, etype, data)], finals = last repeat per stage"""
+def source_arrivals(case):
+    """the events reaching the first stage: [(t, data)] in arrival order"""
     etype = case['etype']
-    src_arrivals = []
+    out = []
     if case['entry'] == 'ext':
         for a in case['arrivals']:
             if a['t'] >= case['stop'] or a['etype'] != etype:
@@ -134,33 +98,133 @@ def model(case, names):
                 data['extra'] = a['extra']
             src = a['source']
             data['source'] = '_ext_' if src is None else (src if src.startswith('_ext_') else '_ext_' + src)
-            src_arrivals.append((a['t'], data))
+            out.append((a['t'], data))
     else:
         cur = UNDEF
         seq = [{'t': 0.0, 'value': 0}] + [a for a in case['arrivals'] if a['t'] < case['stop']]
         for a in seq:
             if cur is UNDEF or cur != a['value']:
                 if not (cur is UNDEF and case['not_from_undef']):
-                    src_arrivals.append((a['t'], {'value': a['value'], 'previous': cur,
-                                                  'trigger': 'output', 'source': 'src'}))
+                    out.append((a['t'], {'value': a['value'], 'previous': cur,
+                                         'trigger': 'output', 'source': 'src'}))
                 cur = a['value']
-    flows = [(src_arrivals, ())]
-    for n, stage in enumerate(case['stages']):
-        nxt = []
-        for arr, finals in flows:
-            for outs, last in stage_outcomes(arr, stage['interval'][0], stage['count'], case['stop']):
-                fwd = []
-                for t, data, rep in outs:
-                    d = dict(data)
-                    d['orig_source'] = data.get('source')
-                    d['source'] = names[n]
-                    d['repeat'] = rep
-                    fwd.append((t, d))
-                item = (fwd, finals + (last,))
-                if item not in nxt:
-                    nxt.append(item)
-        flows = nxt
-    return [([(t, etype, d) for t, d in arr], finals) for arr, finals in flows]
+    return out
+
+
+def match_log(case, names, got):
+    """Guided non-deterministic simulation of the Repeat chain.
+
+    At one virtual instant the atomic actions "next arrival from the source (forwarded through
+    all stages at once)" and "repetition due in stage s (forwarded through the later stages)" may
+    happen in any order; a repetition whose stage has meanwhile received a newer event is void.
+    Every action emits exactly one entry at the destination, so a branch is abandoned at its
+    first disagreement with the observed log.
+    -> (set of admissible final outputs per stage, number of branching points, longest matched prefix)"""
+    etype = case['etype']
+    stages = case['stages']
+    n = len(stages)
+    arrivals = source_arrivals(case)
+    stop = case['stop']
+    finals = set()
+    stats = {'branch': 0, 'best': 0, 'expected': None}
+
+    def emit_ok(pos, t, data):
+        if pos >= len(got):
+            return False
+        return same_log([got[pos]], [(t, etype, data)])
+
+    def forward(state, s, t, data, rep):
+        """stage s sends (data, rep) onwards; returns the entry arriving at the destination"""
+        d = dict(data)
+        d['orig_source'] = data.get('source')
+        d['source'] = names[s]
+        d['repeat'] = rep
+        for j in range(s + 1, n):
+            # the next stage forwards at once with repeat 0 and restarts its own repetitions
+            state[j] = (d, t, 1)
+            state['last'][j] = 0
+            d2 = dict(d)
+            d2['orig_source'] = d.get('source')
+            d2['source'] = names[j]
+            d2['repeat'] = 0
+            d = d2
+        return d
+
+    def rep_time(state, s):
+        cur = state[s]
+        if cur is None:
+            return None
+        data, t0, k = cur
+        cnt = stages[s]['count']
+        if cnt is not None and k > cnt:
+            return None
+        return t0 + k * stages[s]['interval'][0]
+
+    def search(state, ai, pos):
+        while True:
+            stats['best'] = max(stats['best'], pos)
+            times = [(rep_time(state, s), s) for s in range(n)]
+            times = [(t, s) for t, s in times if t is not None]
+            ta = arrivals[ai][0] if ai < len(arrivals) else None
+            cands = [t for t, _ in times] + ([ta] if ta is not None else [])
+            cands = [t for t in cands if t <= stop + 1e-9]
+            if not cands:
+                if pos == len(got):
+                    finals.add(tuple(state['last'][s] for s in range(n)))
+                else:
+                    stats['expected'] = 'END'
+                return
+            now = min(cands)
+            actions = [('R', s) for t, s in times if abs(t - now) <= 1e-9]
+            if ta is not None and abs(ta - now) <= 1e-9:
+                actions.append(('A', None))
+            at_stop = abs(now - stop) <= 1e-9
+            if at_stop:
+                actions.append(('STOP', None))      # a repetition due exactly at the stop may not happen
+            if len(actions) > 1:
+                stats['branch'] += 1
+            if len(actions) == 1:
+                act = actions[0]
+                nxt = apply(state, ai, pos, act, now, copy_state=False)
+                if nxt is None:
+                    return
+                state, ai, pos = nxt
+                continue
+            for act in actions:
+                nxt = apply(state, ai, pos, act, now, copy_state=True)
+                if nxt is not None:
+                    search(*nxt)
+            return
+
+    def apply(state, ai, pos, act, now, copy_state):
+        if act[0] == 'STOP':
+            if pos == len(got):
+                finals.add(tuple(state['last'][s] for s in range(n)))
+            return None
+        if copy_state:
+            state = {k: (dict(v) if k == 'last' else v) for k, v in state.items()}
+        if act[0] == 'A':
+            t, data = arrivals[ai]
+            state[0] = (data, t, 1)
+            state['last'][0] = 0
+            entry = forward(state, 0, t, data, 0)
+            ai += 1
+        else:
+            s = act[1]
+            data, t0, k = state[s]
+            state[s] = (data, t0, k + 1)
+            state['last'][s] = k
+            entry = forward(state, s, now, data, k)
+        if not emit_ok(pos, now, entry):
+            if pos >= stats['best']:
+                stats['expected'] = (now, etype, entry)
+            return None
+        return state, ai, pos + 1
+
+    init = {s: None for s in range(n)}
+    init['last'] = {s: 0 for s in range(n)}
+    search(init, 0, 0)
+    return finals, stats
 
 
 # ---------------------------------------------------------------- executor
@@ -243,19 +307,14 @@ def execute(case):
     if info['error_before_stop'] is not None or info['stop_error'] is not None:
         res.fail('C18.simulation_error', info['error_before_stop'] or info['stop_error'])
     got = [(r['t'], r['etype'], r['data']) for r in log[:info['n_at_stop']]]
-    admissible = model(case, info['names'])
-    match = [finals for exp, finals in admissible if same_log(got, exp)]
-    if not match:
-        exp = admissible[0][0]
-        k = 0
-        while k < min(len(got), len(exp)) and same_log(got[k:k + 1], exp[k:k + 1]):
-            k += 1
-        res.fail('C18.log', f"{len(admissible)} admissible sequence(s); first difference to #0 at "
-                 f"index {k}: got {got[k] if k < len(got) else 'END'!r}, "
-                 f"expected {exp[k] if k < len(exp) else 'END'!r}")
+    ok_finals, stats = match_log(case, info['names'], got)
+    if not ok_finals:
+        k = stats['best']
+        res.fail('C18.log', f"no admissible schedule reproduces the destination log; longest matching prefix "
+                 f"{k} of {len(got)} entries; got {got[k] if k < len(got) else 'END'!r}, "
+                 f"a schedule expects {stats['expected']!r}")
     else:
         # the output of every stage = its last repeat number (a tie at the stop instant may add one)
-        ok_finals = set(match)
         if info['finals'] not in ok_finals and info['finals_after_stop'] not in ok_finals:
             res.fail('C18.output', f"outputs {info['finals']}, admissible {sorted(ok_finals)}")
     # last stage: output == repeat at each delivery
@@ -287,11 +346,11 @@ def execute(case):
         res.classes.append('implicit Repeat')
     if tie:
         res.classes.append('arrival exactly at a repetition instant')
-    if len(admissible) > 1:
+    if stats['branch']:
         res.classes.append('set-valued (tie)')
     if any(a.get('etype', case['etype']) != case['etype'] for a in case['arrivals']):
         res.classes.append('non-matching type present')
-    res.outcome = {'deliveries': len(got), 'repetitions': nrep, 'admissible': len(admissible)}
+    res.outcome = {'deliveries': len(got), 'repetitions': nrep, 'tie_points': stats['branch']}
     return res
 
 
